@@ -66,6 +66,26 @@ func c03(c *Ctx) {
 	var jobs []job
 	for _, l := range c.CorpusLines() {
 		f := strings.Fields(l)
+		if len(f) < 2 || f[0] == "frag" {
+			continue
+		}
+		if f[0] == "known" && len(f) == 3 {
+			// `known <id> <hexsrc>`: a recorded finding, replayed under bash with every option set; reported once
+			// under a witness that does not depend on the option set (see known-findings.jsonl)
+			src := unhx(f[2])
+			for _, ff := range c03Fmts {
+				out, ok := c03Format(src, syntax.LangBash, ff, false)
+				if !ok {
+					continue
+				}
+				b1, b2 := runShell(c, "bash", src), runShell(c, "bash", out)
+				if !b1.TimedOut && !b2.TimedOut && !c03Same(b1, b2) {
+					c.Fail("known "+f[1]+" "+f[2], fmt.Sprintf("bash: original gives status %d stdout %q; formatted (%s) gives status %d stdout %q; formatted text: %q", b1.Status, clip(b1.Stdout), ff.name, b2.Status, clip(b2.Stdout), clip(out)))
+					break
+				}
+			}
+			continue
+		}
 		for _, ff := range c03Fmts {
 			jobs = append(jobs, job{unhx(f[len(f)-1]), syntax.LangBash, ff, true})
 		}
